@@ -119,13 +119,13 @@ func (k Keeper) deleteSignalTotalPowerByPowerIndex(ctx sdk.Context, signalTotalP
 
 // GetSignalTotalPowersByPower gets the current signal-total-power sorted by power-rank.
 func (k Keeper) GetSignalTotalPowersByPower(ctx sdk.Context, limit uint64) []types.Signal {
-	signalTotalPowers := make([]types.Signal, limit)
+	// grow with the signals actually found: `limit` is a module parameter and must not size an allocation
+	signalTotalPowers := make([]types.Signal, 0)
 
 	iterator := k.SignalTotalPowersByPowerStoreIterator(ctx)
 	defer iterator.Close()
 
-	i := 0
-	for ; iterator.Valid() && i < int(limit); iterator.Next() {
+	for ; iterator.Valid() && uint64(len(signalTotalPowers)) < limit; iterator.Next() {
 		bz := iterator.Value()
 		signalID := string(bz)
 		signalTotalPower, err := k.GetSignalTotalPower(ctx, signalID)
@@ -134,11 +134,10 @@ func (k Keeper) GetSignalTotalPowersByPower(ctx sdk.Context, limit uint64) []typ
 			continue
 		}
 
-		signalTotalPowers[i] = signalTotalPower
-		i++
+		signalTotalPowers = append(signalTotalPowers, signalTotalPower)
 	}
 
-	return signalTotalPowers[:i] // trim
+	return signalTotalPowers
 }
 
 // SignalTotalPowersByPowerStoreIterator returns an iterator for signal-total-powers by power index store.
